@@ -127,6 +127,10 @@ pub mod c20 {
         match header {
             "none" => {}
             "bad" => rb = rb.header(F::identity_header(), "not-an-identity"),
+            // x<hex>: raw header bytes (opaque octets: `HeaderValue::to_str` fails)
+            v if v.len() > 1 && v.starts_with('x') && v[1..].bytes().all(|b| b.is_ascii_hexdigit()) && v.len() % 2 == 1 => {
+                rb = rb.header(F::identity_header(), hyper::header::HeaderValue::from_bytes(&unhex(&v[1..])).expect("harness: header bytes"))
+            }
             v => rb = rb.header(F::identity_header(), v),
         }
         let req = rb.body(Body::empty()).unwrap();
@@ -245,7 +249,7 @@ pub mod c20 {
         // identity derivation
         for flavor in ["helper", "shard"] {
             let good: [&str; 3] = if flavor == "helper" { ["A", "B", "C"] } else { ["0", "1", "2"] };
-            let mut headers = vec!["none", "bad", "", "H1", "-1", "a", "4294967296", "4294967295", "+1", "007", "+", "1_0", "0x1"];
+            let mut headers = vec!["none", "bad", "", "H1", "-1", "a", "4294967296", "4294967295", "+1", "007", "+", "1_0", "0x1", "x41ff", "xc3a9", "x31e9"];
             headers.extend(good);
             for arm in ["tls", "plain"] {
                 for cert in ["none", "0", "1", "2"] {
@@ -463,6 +467,21 @@ fn verif_c09_query() {
 //   -> 401 | ok (2xx) | other:<status> | conn-err (the request failed below HTTP)
 // Network of the server: mpc = helpers A, B with certificates 0, 1, helper C without certificate;
 // shard = shards 0, 1 with certificates 0, 1. The server's own certificate is certificate 0.
+//
+//   c20.chain <mpc|shard> <tls|plain> <pre|self> <group> <METHOD> <path?query> <key> <chain> <hdr> <body>
+//     a client built directly on rustls that puts a CHAIN of certificates into its Certificate
+//     message and signs CertificateVerify with the given key (no consistency check on the client
+//     side: the server has to refuse a certificate presented without its key)
+//     key        - (no client authentication) | k0 | k1 | k2 = private key of test certificate i
+//     chain      - | comma-separated, end-entity FIRST: 0|1|2 = test certificate i byte for byte (0, 1 are
+//                on file for peers 0, 1; 2 is on file for nobody) | r0|r1|r2 = a certificate freshly
+//                re-issued for the key of test certificate i (same subject and key, other bytes: chains
+//                to the trust anchor i, is on file for nobody) | l0|l1|l2 = a leaf certificate for a FRESH
+//                key (subject CN=leaf), issued with the key and subject of test certificate i; its key is
+//                the key token kl<i>
+//     plain      key and chain must be `-`; the identity can only come from the header
+//   -> conn-err | 401 | other:<status> | ok | ok from=<i>|none   on the step route: the peer whose
+//      inbound record stream (`HttpTransport::receive(peer, (query, gate))`) got the request body
 // ---------------------------------------------------------------------------------------------
 pub mod c20_live {
     use std::net::TcpListener;
@@ -481,12 +500,13 @@ pub mod c20_live {
     use crate::{
         config::{NetworkConfig, PeerConfig, ServerConfig},
         executor::IpaRuntime,
-        helpers::HelperIdentity,
+        helpers::{HelperIdentity, TransportIdentity},
         ipa_verif::proto::*,
         net::{
-            CRYPTO_PROVIDER, ConnectionFlavor, Helper, Shard, parse_certificate_and_private_key_bytes,
+            CRYPTO_PROVIDER, ConnectionFlavor, Helper, HttpTransport, Shard, parse_certificate_and_private_key_bytes,
             test::{TestServerBuilder, get_test_certificate_and_key},
         },
+        protocol::{Gate, QueryId},
         sharding::{ShardIndex, ShardedHelperIdentity},
         sync::Arc,
     };
@@ -615,8 +635,220 @@ pub mod c20_live {
         }
     }
 
+    // ------------------------------------------------------------------ c20.chain
+
+    /// a fresh self-signed certificate for the key of test certificate i: same subject (CN=localhost),
+    /// same key, other serial number / validity / signature, hence other bytes
+    fn reissued(i: usize) -> CertificateDer<'static> {
+        let id = ShardedHelperIdentity::new(HelperIdentity::make_three()[i], ShardIndex::FIRST);
+        let (_, key_pem) = get_test_certificate_and_key(id);
+        let key = rcgen::KeyPair::from_pem(std::str::from_utf8(key_pem).unwrap()).expect("harness: test key");
+        let mut params = rcgen::CertificateParams::default();
+        let mut name = rcgen::DistinguishedName::new();
+        name.push(rcgen::DnType::CommonName, "localhost");
+        params.distinguished_name = name;
+        params.self_signed(&key).expect("harness: re-issue").der().clone()
+    }
+
+    /// leaf certificates for fresh keys, one per issuer i, minted with the key (and subject) of test
+    /// certificate i: (certificate, PKCS#8 key)
+    struct Leaves([Option<(CertificateDer<'static>, Vec<u8>)>; 3]);
+
+    impl Leaves {
+        fn get(&mut self, i: usize) -> &(CertificateDer<'static>, Vec<u8>) {
+            self.0[i].get_or_insert_with(|| {
+                let id = ShardedHelperIdentity::new(HelperIdentity::make_three()[i], ShardIndex::FIRST);
+                let (_, key_pem) = get_test_certificate_and_key(id);
+                let issuer_key = rcgen::KeyPair::from_pem(std::str::from_utf8(key_pem).unwrap()).expect("harness: test key");
+                let mut ip = rcgen::CertificateParams::default();
+                let mut name = rcgen::DistinguishedName::new();
+                name.push(rcgen::DnType::CommonName, "localhost");
+                ip.distinguished_name = name;
+                let issuer = ip.self_signed(&issuer_key).expect("harness: issuer");
+                let leaf_key = rcgen::KeyPair::generate().expect("harness: fresh key");
+                let mut lp = rcgen::CertificateParams::default();
+                let mut name = rcgen::DistinguishedName::new();
+                name.push(rcgen::DnType::CommonName, "leaf");
+                lp.distinguished_name = name;
+                let cert = lp.signed_by(&leaf_key, &issuer, &issuer_key).expect("harness: mint leaf");
+                (cert.der().clone(), leaf_key.serialize_der())
+            })
+        }
+    }
+
+    fn chain_of(tok: &str, leaves: &mut Leaves) -> Vec<CertificateDer<'static>> {
+        if tok == "-" {
+            return Vec::new();
+        }
+        tok.split(',')
+            .map(|c| {
+                if let Some(i) = c.strip_prefix('r') {
+                    reissued(i.parse().expect("harness: chain token"))
+                } else if let Some(i) = c.strip_prefix('l') {
+                    leaves.get(i.parse().expect("harness: chain token")).0.clone()
+                } else {
+                    cert_key(c.parse().expect("harness: chain token")).0.remove(0)
+                }
+            })
+            .collect()
+    }
+
+    /// HTTPS client presenting `chain` and signing with test key `key`; unlike
+    /// `ClientConfig::with_client_auth_cert` nothing checks that the key belongs to the first certificate
+    fn chain_client(key: &str, chain: &str) -> Client<hyper_rustls::HttpsConnector<HttpConnector>, Body> {
+        let mut http = HttpConnector::new();
+        http.enforce_http(false);
+        let mut roots = RootCertStore::empty();
+        roots.add(cert_key(0).0.remove(0)).unwrap();
+        let b = rustls::ClientConfig::builder_with_provider(Arc::clone(&CRYPTO_PROVIDER))
+            .with_safe_default_protocol_versions()
+            .unwrap()
+            .with_root_certificates(roots);
+        let cfg = match key.strip_prefix('k') {
+            None => {
+                assert!(key == "-" && chain == "-", "harness: a chain needs a key");
+                b.with_no_client_auth()
+            }
+            Some(k) => {
+                let mut leaves = Leaves([None, None, None]);
+                let der = match k.strip_prefix('l') {
+                    Some(i) => PrivateKeyDer::Pkcs8(leaves.get(i.parse().expect("harness: key token")).1.clone().into()),
+                    None => cert_key(k.parse().expect("harness: key token")).1,
+                };
+                let signing = CRYPTO_PROVIDER.key_provider.load_private_key(der).expect("harness: load key");
+                let ck = rustls::sign::CertifiedKey::new(chain_of(chain, &mut leaves), signing);
+                b.with_client_cert_resolver(std::sync::Arc::new(rustls::sign::SingleCertAndKey::from(ck)))
+            }
+        };
+        let connector = HttpsConnectorBuilder::new().with_tls_config(cfg).https_only().enable_http1().enable_http2().wrap_connector(http);
+        Client::builder(TokioExecutor::new()).pool_timer(TokioTimer::new()).build(connector)
+    }
+
+    /// which peer's inbound record stream for (query, gate) yields the request body
+    async fn attributed_to<F: ConnectionFlavor>(transport: &HttpTransport<F>, ids: &[F::Identity], gate: &Gate, want: &[u8]) -> String {
+        use futures::{StreamExt, stream::poll_immediate};
+        let mut streams: Vec<_> = ids.iter().map(|id| Box::pin(transport.receive(*id, &(QueryId, gate.clone())))).collect();
+        for _ in 0..2500 {
+            let mut got = Vec::new();
+            for (id, st) in ids.iter().zip(streams.iter_mut()) {
+                if let Some(std::task::Poll::Ready(item)) = poll_immediate(st).next().await {
+                    let ok = item.ok().is_some_and(|b| { let b: Vec<u8> = b.into(); want.starts_with(&b) && !b.is_empty() });
+                    got.push(format!("{}{}", id.as_index(), if ok { "" } else { "?" }));
+                }
+            }
+            if !got.is_empty() {
+                return got.join("+");
+            }
+            tokio::time::sleep(std::time::Duration::from_millis(2)).await;
+        }
+        "none".into()
+    }
+
+    async fn chain_ask<F: ConnectionFlavor>(
+        base: IpaHttpServer<F>,
+        network_config: NetworkConfig<F>,
+        transport: Arc<HttpTransport<F>>,
+        ids: &[F::Identity],
+        t: &[String],
+    ) -> String {
+        let tls = t[2] == "tls";
+        assert_eq!(base.config.disable_https, !tls);
+        let server = IpaHttpServer::<F> {
+            config: ServerConfig { port: None, ..base.config.clone() },
+            network_config,
+            router: base.router.clone(),
+        };
+        let listener = match t[3].as_str() {
+            "pre" => Some(TcpListener::bind("127.0.0.1:0").unwrap()),
+            "self" => None,
+            b => panic!("harness: unknown bind mode {b}"),
+        };
+        let (addr, handle) = server.start_on(&IpaRuntime::current(), listener, ()).await;
+        let uri = if tls {
+            format!("https://localhost:{}{}", addr.port(), t[6])
+        } else {
+            format!("http://127.0.0.1:{}{}", addr.port(), t[6])
+        };
+        let (b, ct) = super::c20::body_of(&t[10]);
+        let mut rb = Request::builder().method(t[5].as_str()).uri(uri);
+        if let Some(ct) = ct {
+            rb = rb.header("content-type", ct);
+        }
+        match t[9].split_once('=') {
+            None => assert!(t[9] == "none", "harness: header token"),
+            Some(("h", v)) => rb = rb.header(Helper::identity_header(), v),
+            Some(("s", v)) => rb = rb.header(Shard::identity_header(), v),
+            Some(_) => panic!("harness: header token"),
+        }
+        // the client is kept alive until the identity has been observed (the body may still be in flight)
+        let cl = if tls {
+            chain_client(&t[7], &t[8])
+        } else {
+            assert!(t[7] == "-" && t[8] == "-", "harness: a plain-HTTP client cannot present a certificate");
+            client(false, "none")
+        };
+        let r = cl.request(rb.body(b).unwrap()).await;
+        let out = match r {
+            Err(_) => "conn-err".into(),
+            Ok(resp) => match resp.status().as_u16() {
+                401 => "401".into(),
+                200..=299 => {
+                    let path = t[6].split('?').next().unwrap();
+                    match path.split_once("/step/") {
+                        Some((_, step)) if t[5] == "POST" => {
+                            assert!(t[10] == "junk", "harness: the step route is asked with body `junk`");
+                            let who = attributed_to(&transport, ids, &Gate::from(step), &[0xffu8; 37]).await;
+                            format!("ok from={who}")
+                        }
+                        _ => "ok".into(),
+                    }
+                }
+                s => format!("other:{s}"),
+            },
+        };
+        drop(cl);
+        handle.abort();
+        out
+    }
+
+    async fn run_chain(t: Vec<String>) -> String {
+        let tls = t[2] == "tls";
+        match t[1].as_str() {
+            "mpc" => {
+                let mut b = TestServerBuilder::<Helper>::default().with_request_handler(super::c20::ok_handler());
+                if !tls {
+                    b = b.disable_https();
+                }
+                let ts = b.build().await;
+                let nc = &ts.server.network_config;
+                let certs: [Option<usize>; 3] = if tls { [Some(0), Some(1), None] } else { [None; 3] };
+                let peers = nc.peers.iter().zip(certs).map(|(p, c)| with_cert(p, c)).collect();
+                let network = NetworkConfig::<Helper>::new_mpc(peers, nc.client.clone());
+                chain_ask(ts.server, network, ts.transport, &HelperIdentity::make_three(), &t).await
+            }
+            "shard" => {
+                let mut b = TestServerBuilder::<Shard>::default().with_request_handler(super::c20::ok_handler());
+                if !tls {
+                    b = b.disable_https();
+                }
+                let ts = b.build().await;
+                let nc = &ts.server.network_config;
+                let p0 = &nc.peers[0];
+                let peers = (0..2).map(|i| with_cert(p0, tls.then_some(i))).collect();
+                let network = NetworkConfig::<Shard>::new_shards(peers, nc.client.clone());
+                let ids = [ShardIndex::from(0u32), ShardIndex::from(1u32), ShardIndex::from(2u32)];
+                chain_ask(ts.server, network, ts.transport, &ids, &t).await
+            }
+            s => panic!("harness: unknown server {s}"),
+        }
+    }
+
     pub fn exec(req: &str) -> String {
         let t: Vec<String> = req.split(' ').map(str::to_string).collect();
+        if t[0] == "c20.chain" {
+            assert!(t.len() == 11, "harness: malformed request {req}");
+            return block_on_timeout(30, run_chain(t)).unwrap_or_else(|e| e);
+        }
         assert!(t[0] == "c20.live" && t.len() == 10, "harness: unknown request {req}");
         block_on_timeout(30, run(t)).unwrap_or_else(|e| e)
     }
@@ -648,8 +880,81 @@ pub mod c20_live {
     /// a header value that parses neither as HelperIdentity nor as ShardIndex
     const BAD: &str = "not-a-valid-identity";
 
-    pub fn generate(_rng: &mut Rng, thorough: bool) -> Vec<String> {
+    /// (key, chain): what a client puts into its Certificate message, end-entity first
+    const CHAINS: &[(&str, &str)] = &[
+        // controls: one certificate, as every ordinary client sends
+        ("k1", "1"), ("k0", "0"), ("-", "-"),
+        // passes the handshake (chains to the anchor of its key) but is on file for nobody
+        ("k1", "r1"), ("k0", "r0"),
+        // ... followed by the PUBLIC certificate of the peer to impersonate / of itself / of several peers
+        ("k1", "r1,0"), ("k0", "r0,1"), ("k1", "r1,1"), ("k1", "r1,0,1"), ("k0", "r0,r1,2,r2,1,0"),
+        // own certificate first, another peer's after it: identified as the first
+        ("k0", "0,1"), ("k1", "1,0"), ("k1", "1,1"), ("k1", "1,r1"), ("k1", "1,2,r0,0"),
+        // a peer's certificate without its key, alone / before the caller's own certificate
+        ("k0", "1"), ("k1", "0"), ("k0", "1,0"), ("k1", "0,1"), ("k1", "r0,0"),
+        // a key that no trust anchor vouches for
+        ("k2", "2"), ("k2", "r2"), ("k2", "r2,0"), ("k2", "2,1,0"),
+        // a leaf for a fresh key minted by the holder of key 1 / 0 / 2: handshake-valid iff the issuer is a
+        // pinned peer, on file for nobody; followed by its issuer's / another peer's public certificate
+        ("kl1", "l1"), ("kl1", "l1,1"), ("kl1", "l1,0"), ("kl0", "l0,1,0"), ("kl2", "l2,0"), ("k1", "l1,1"), ("kl1", "1"),
+    ];
+
+    fn chain_cases(rng: &mut Rng, thorough: bool, v: &mut Vec<String>) {
+        let reqs = requests();
+        for server in ["mpc", "shard"] {
+            let (own, other) = if server == "mpc" { ("h", "s") } else { ("s", "h") };
+            let val = |f: &str, k: usize| if f == "h" { ["A", "B", "C"][k] } else { ["0", "1", "2"][k] };
+            let step = reqs.iter().find(|r| r.0 == server && r.3.contains("/step/")).expect("harness: step route").clone();
+            let (_, sgroup, smethod, spath, sbody) = step;
+            // every chain on the step route (the identity the data is attributed to is observable there)
+            for bind in ["self", "pre"] {
+                for (i, (key, chain)) in CHAINS.iter().enumerate() {
+                    if !thorough && bind == "pre" && i % 3 != 2 {
+                        continue;
+                    }
+                    v.push(format!("c20.chain {server} tls {bind} {sgroup} {smethod} {spath} {key} {chain} none {sbody}"));
+                }
+                // certificate AND identity header under TLS: the certificate decides, also WHO it is
+                for (key, chain) in [("k1", "1"), ("k1", "1,0"), ("k1", "r1,0"), ("k0", "0"), ("-", "-")] {
+                    for h in [format!("{own}={}", val(own, 0)), format!("{own}={}", val(own, 2)), format!("{own}=not-a-valid-identity"), format!("{other}={}", val(other, 0))] {
+                        if !thorough && bind == "pre" && chain != "1" {
+                            continue;
+                        }
+                        v.push(format!("c20.chain {server} tls {bind} {sgroup} {smethod} {spath} {key} {chain} {h} {sbody}"));
+                    }
+                }
+                // without TLS the header decides who it is
+                for h in ["none".to_string(), format!("{own}={}", val(own, 0)), format!("{own}={}", val(own, 1)), format!("{own}={}", val(own, 2)),
+                          format!("{own}=not-a-valid-identity"), format!("{other}={}", val(other, 1))] {
+                    v.push(format!("c20.chain {server} plain {bind} {sgroup} {smethod} {spath} - - {h} {sbody}"));
+                }
+            }
+            // the telling chains on every other route of the server
+            for (_, group, method, path, body) in reqs.iter().filter(|r| r.0 == server && !r.3.contains("/step/")) {
+                let protected = group == "h2h" || group == "s2s";
+                for (key, chain) in [("k1", "r1,0"), ("k0", "0,1"), ("k0", "1"), ("k1", "r1")] {
+                    if !thorough && !protected && chain != "r1,0" {
+                        continue;
+                    }
+                    v.push(format!("c20.chain {server} tls self {group} {method} {path} {key} {chain} none {body}"));
+                }
+            }
+            // random chains
+            for _ in 0..(if thorough { 150 } else { 12 }) {
+                let toks = ["0", "1", "2", "r0", "r1", "r2", "l0", "l1", "l2"];
+                let n = 1 + rng.below(5) as usize;
+                let chain: Vec<&str> = (0..n).map(|_| toks[rng.below(9) as usize]).collect();
+                // mostly the key of the first certificate (otherwise the handshake fails)
+                let k = if rng.below(4) == 0 { rng.below(3).to_string() } else { chain[0].trim_start_matches('r').to_string() };
+                let bind = if rng.bool() { "self" } else { "pre" };
+                v.push(format!("c20.chain {server} tls {bind} {sgroup} {smethod} {spath} k{k} {} none {sbody}", chain.join(",")));
+            }
+        }
+    }
+
+    pub fn generate(rng: &mut Rng, thorough: bool) -> Vec<String> {
         let mut v = Vec::new();
+        chain_cases(rng, thorough, &mut v);
         for (server, group, method, path, body) in requests() {
             let protected = group == "h2h" || group == "s2s";
             // identity headers: own flavor (valid peer 0 / peer 1 / malformed), other flavor
